@@ -37,13 +37,19 @@ def check(tier, seed, t0):
     npool = vf.extract_tagged(res["out"], "POOL", pool)
     os.remove(res["out"])
     runs.append(res)
-    g = poly_common.poly_runs(tier)[0]
-    gres = vf.run_tlc("C10_gpool", g["module"], dict(constants=g["constants"], invariants=g["invariants"]), timeout=2400)
-    vf.tlc_ok_or_die(gres)
-    gpool = os.path.join(gres["wd"], "cases.ndjson")
-    ngen = vf.extract_tagged(gres["out"], "CASE", gpool)
-    os.remove(gres["out"])
-    runs.append(gres)
+    gpool = os.path.join(vf.WORK, "C10_gpool.ndjson")
+    ngen = 0
+    with open(gpool, "w") as gout:
+        for g in poly_common.poly_runs(tier):          # general slopes; the second run has the shells large enough for two holes
+            gres = vf.run_tlc("C10_gpool_" + g["name"], g["module"], dict(constants=g["constants"], invariants=g["invariants"]), timeout=2400)
+            vf.tlc_ok_or_die(gres)
+            part = os.path.join(gres["wd"], "cases.ndjson")
+            ngen += vf.extract_tagged(gres["out"], "CASE", part)
+            os.remove(gres["out"])
+            with open(part) as f:
+                gout.write(f.read())
+            os.remove(part)
+            runs.append(gres)
     if npool == 0 or ngen == 0:
         raise vf.ToolError("empty pool")
     trace = os.path.join(vf.WORK, "C10_trace.ndjson")
